@@ -457,9 +457,103 @@ def gen_routing(repo=None):
     out.append(';\n'.join(entries))
     out.append('].')
     out.append('')
+    out.append('Definition array_routing : list aentry := [')
+    out.append(';\n'.join(array_entries(repo)))
+    out.append('].')
+    out.append('')
     out.append(f'Definition n_methods_1d : Z := {count[False]}.')
     out.append(f'Definition n_methods_2d : Z := {count[True]}.')
     return '\n'.join(out) + '\n'
+
+
+# ------------------------------------------------------------------------------------------------
+# per-point arrays: in every function that hands one of its parameters to _check_optional_array /
+# _check_sized_array, the events of that parameter in source order: AValidate for the validation
+# call, AUse for ANY other occurrence (subscripting, fancy indexing, np.asarray(...), a call
+# argument, ...) except the pure `is None` / `is not None` tests.  Fail-closed.
+ARRAY_VALIDATORS = {'_check_optional_array': 1, '_check_sized_array': 0}   # position of the array argument
+ARRAY_VALIDATOR_KW = 'array'
+
+
+def _array_events(fn, par):
+    events = []
+
+    def visit(node):
+        if isinstance(node, ast.Compare) and _is_name(node.left, par) and len(node.ops) == 1 \
+                and isinstance(node.ops[0], (ast.Is, ast.IsNot)) \
+                and isinstance(node.comparators[0], ast.Constant) and node.comparators[0].value is None:
+            return
+        if isinstance(node, ast.Call) and isinstance(node.func, ast.Name) and node.func.id in ARRAY_VALIDATORS:
+            pos = ARRAY_VALIDATORS[node.func.id]
+            is_arr = (len(node.args) > pos and _is_name(node.args[pos], par)) or any(
+                kw.arg == ARRAY_VALIDATOR_KW and _is_name(kw.value, par) for kw in node.keywords)
+            if is_arr:
+                # the other arguments are evaluated first
+                for i, a in enumerate(node.args):
+                    if i != pos or not _is_name(a, par):
+                        visit(a)
+                for kw in node.keywords:
+                    if not (kw.arg == ARRAY_VALIDATOR_KW and _is_name(kw.value, par)):
+                        visit(kw.value)
+                events.append('AValidate')
+                return
+        if isinstance(node, ast.Name):
+            if node.id == par and isinstance(node.ctx, ast.Load):
+                events.append('AUse')
+            return
+        if isinstance(node, (ast.FunctionDef, ast.Lambda, ast.ClassDef)):
+            if _mentions(node, par):
+                events.append('AUse')
+            return
+        # statements: value before targets, test before body (source / evaluation order)
+        if isinstance(node, ast.Assign):
+            visit(node.value)
+            for tg in node.targets:
+                if not isinstance(tg, ast.Name):
+                    visit(tg)
+            return
+        for child in ast.iter_child_nodes(node):
+            visit(child)
+
+    for st in fn.body:
+        visit(st)
+    return events
+
+
+def _validated_params(fn):
+    params = {a.arg for a in fn.args.args} | {a.arg for a in fn.args.kwonlyargs}
+    out = []
+    for node in ast.walk(fn):
+        if isinstance(node, ast.Call) and isinstance(node.func, ast.Name) and node.func.id in ARRAY_VALIDATORS:
+            pos = ARRAY_VALIDATORS[node.func.id]
+            cands = []
+            if len(node.args) > pos:
+                cands.append(node.args[pos])
+            cands += [kw.value for kw in node.keywords if kw.arg == ARRAY_VALIDATOR_KW]
+            for c in cands:
+                if isinstance(c, ast.Name) and c.id in params and c.id not in out and c.id not in ('self', 'data'):
+                    out.append(c.id)
+    return out
+
+
+def array_entries(repo):
+    entries = []
+    for two_d in (False, True):
+        rels = [(f'pybaselines/{"two_d/" if two_d else ""}_algorithm_setup.py', '_algorithm_setup')]
+        rels += [(f'pybaselines/{"two_d/" if two_d else ""}{m}.py', m) for m in (MODS_2D if two_d else MODS_1D)]
+        for rel, mod in rels:
+            tree, _ = _parse(rel, repo)
+            for cnode in tree.body:
+                if not isinstance(cnode, ast.ClassDef):
+                    continue
+                for fn in cnode.body:
+                    if not isinstance(fn, ast.FunctionDef):
+                        continue
+                    for par in _validated_params(fn):
+                        ev = _array_events(fn, par)
+                        entries.append(f'  {{| a_two_d := {_b(two_d)}; a_module := "{mod}"; a_fn := "{fn.name}"; '
+                                       f'a_arg := "{par}"; a_events := [{"; ".join(ev)}] |}}')
+    return entries
 
 
 GENERATORS = {'GenRouting': gen_routing}
